@@ -262,6 +262,40 @@ def e2e(rng, res, n):
                                     'length mismatch in part'))
 
 
+def file_rules(res):
+    """rules read from a file (tex2txt.read_replacements, option --repl) are
+    applied wherever they match, every time: in each main-language part of the
+    multi-language mode, and in every document handled with the same options"""
+    import os, shellrun
+    universe = __import__('universe')
+    universe.scratch_dir()
+    with open('c13rules.txt', 'w', encoding='utf-8') as f:
+        f.write('# comment\n\nso dass & sodass\nzum Beispiel & z. B.\n')
+    rules = tex2txt.read_replacements('c13rules.txt', 'utf-8')
+    o = tex2txt.Options(lang='en-GB', pack='*', repl=rules)
+    doc1 = 'Eins so dass zwei, zum Beispiel drei.\n'
+    doc2 = 'Vier so dass five.\n'
+    for k, d in enumerate((doc1, doc2, doc1)):
+        t = tex2txt.tex2txt(d, o)[0]
+        res.count('file-rules', ('api', k))
+        if 'so dass' in t or 'zum Beispiel' in t:
+            res.failures.append(('c13-file:api:%d' % k, {'latex': d, 'call': k},
+                                 'call %d with one options object: phrases of the rule file '
+                                 'are not replaced: %r' % (k + 1, t)))
+    ml = ('\\usepackage{babel}Part one so dass here and more words.\n'
+          '\\begin{otherlanguage}{german}\nEin langer deutscher Satz mit vielen Worten hier.\n'
+          '\\end{otherlanguage}\nPart two so dass again, zum Beispiel this, and more words.\n')
+    rc, out, err, files = shellrun.run_filter(
+        ['--repl', 'r.txt', '--mula', 'out', '--lang', 'en-GB', 'in.tex'],
+        files={'in.tex': ml, 'r.txt': 'so dass & sodass\nzum Beispiel & z. B.\n'})
+    res.count('file-rules', ('cli-mula',))
+    eng = ' '.join(v for k, v in sorted(files.items()) if k.startswith('out.') and k.endswith('en-GB'))
+    if rc != 0 or 'so dass' in eng or 'zum Beispiel' in eng or eng.count('sodass') != 2:
+        res.failures.append(('c13-file:cli-mula', {'latex': ml, 'cli': 'mula'},
+                             'python -m yalafi --repl --mula: the main-language parts are %r, '
+                             'every occurrence of the phrases has to be replaced' % eng))
+
+
 def run(tier, seed, build, res):
     rng = random.Random(seed)
     res.rule = ('exhaustive texts over %r up to length L x %d rule lists '
@@ -286,6 +320,7 @@ def run(tier, seed, build, res):
     cc = core.load_corpus('C13')
     check_cases([(c['txt'], c['pos'], c['lines']) for c in cc], res, 'corpus')
     e2e(rng, res, 0)
+    file_rules(res)
 
 
 def replay(payload, build, res):
